@@ -189,6 +189,9 @@ static void setup_config(void)
 	if (buf_text[cfg_buf])
 		vfs_put("f", buf_text[cfg_buf], -1);
 	vfs_put("f2", "second file\nd\n", -1);
+	/* a tags file, so that the tag commands do more than fail (TAGPATH of the environment points nowhere) */
+	vfs_put("tags", "alpha\tf\t/alpha/\nfoo\tf2\t/second/\nfoo\tf\t2\nlast\tf\t$\n", -1);
+	setenv("TAGPATH", "tags", 1);
 	snprintf(r, sizeof(r), "%d", wins[cfg_win].rows);
 	snprintf(c, sizeof(c), "%d", wins[cfg_win].cols);
 	setenv("LINES", r, 1);
@@ -439,6 +442,25 @@ static void deviation_streams(int k2)
 								cur[j] = j == i ? vi_core[t] : j == i2 ? vi_core[t2] : sessions[s][j];
 							run_stream(cur, n, "two tokens substituted");
 						}
+		}
+	}
+	/* more tag pushes than the tag stack holds (32), then pops */
+	{
+		const char *ts[64];
+		int m;
+		for (n = 31; n <= 43; n += 3) {
+			if ((idx++ % nv_nshards) != nv_shard || nv_expired_now())
+				continue;
+			m = 0;
+			for (i = 0; i < n; i++)
+				ts[m++] = i % 2 == 0 ? ":ta foo\n" : ":ta alpha\n";
+			ts[m++] = ":tn\n";
+			ts[m++] = ":po\n";
+			ts[m++] = ":po\n";
+			ts[m++] = "\x14";
+			ts[m++] = ":ta last\n";
+			ts[m++] = "\x1d";
+			run_stream(ts, m, "more tag pushes than the tag stack holds");
 		}
 	}
 	/* more files than the buffer table holds (16): open 19, walk back through them, edit, delete buffers */
